@@ -146,7 +146,7 @@ impl<R: Read> LilimReader<R> {
         } else {
             Demand::<SingleDimLoad> {
                 pickup: (SingleDimLoad::default(), SingleDimLoad::default()),
-                delivery: (SingleDimLoad::default(), SingleDimLoad::new(customer.demand)),
+                delivery: (SingleDimLoad::default(), SingleDimLoad::new(customer.demand.abs())),
             }
         });
 
@@ -156,7 +156,7 @@ impl<R: Read> LilimReader<R> {
                 duration: customer.service as Float,
                 times: vec![TimeSpan::Window(customer.tw.clone())],
             }],
-            dimens: Default::default(),
+            dimens,
         })
     }
 
